@@ -2156,7 +2156,24 @@ func (a *Agent) renominateCandidate(local, remote Candidate) error {
 	}
 
 	// Send nomination with custom attribute
-	return a.sendNominationRequest(pair, a.getNominationValue())
+	nominationValue := a.getNominationValue()
+	if err := a.sendNominationRequest(pair, nominationValue); err != nil {
+		return err
+	}
+
+	// The request is repeated on the check ticks until it is answered.
+	if nominationValue > 0 {
+		switch selector := a.getSelector().(type) {
+		case *controllingSelector:
+			selector.renominationSent(pair, nominationValue)
+		case *liteSelector:
+			if controlling, ok := selector.pairCandidateSelector.(*controllingSelector); ok {
+				controlling.renominationSent(pair, nominationValue)
+			}
+		}
+	}
+
+	return nil
 }
 
 // sendNominationRequest sends a nomination request with custom nomination value.
